@@ -69,12 +69,14 @@ def grad(val, tens, core_indices = None):
         return [tn.zeros_like(tens.cores[idx]) for idx in core_indices]
     val.retain_grad()
     val.backward()
+    # a core the value does not depend on keeps .grad == None: its derivative is zero
     if core_indices == None:
-        cores = [ c.grad for c in tens.cores]
+        cores = [ c.grad if c.grad is not None else tn.zeros_like(c) for c in tens.cores]
     else:
         cores = []
         for idx in core_indices:
-            cores.append(tens.cores[idx].grad)
+            c = tens.cores[idx]
+            cores.append(c.grad if c.grad is not None else tn.zeros_like(c))
     return cores
 
 def grad_list(val, tensors, all_in_one = True):
@@ -100,11 +102,12 @@ def grad_list(val, tensors, all_in_one = True):
             return [tn.zeros_like(c) for t in tensors for c in t.cores]
         return [[tn.zeros_like(c) for c in t.cores] for t in tensors]
     val.backward()
+    # see grad(): the derivative w.r.t. a core the value does not depend on is zero
     cores_list = []
     if all_in_one:
         for t in tensors:
-            cores_list += [ c.grad for c in t.cores]
+            cores_list += [ c.grad if c.grad is not None else tn.zeros_like(c) for c in t.cores]
     else:
         for t in tensors:
-            cores_list.append([ c.grad for c in t.cores])
+            cores_list.append([ c.grad if c.grad is not None else tn.zeros_like(c) for c in t.cores])
     return cores_list
